@@ -386,6 +386,11 @@ func (g *apiGen) projection(db, coll string) (bson.D, bool) {
 	return p, true
 }
 
+// lateFailingProjection fails only when field f of the projected document is a non-empty array.
+func lateFailingProjection(f string) bson.D {
+	return bson.D{{Key: f, Value: bson.D{{Key: "$elemMatch", Value: bson.D{{Key: "$bogus", Value: int32(1)}}}}}}
+}
+
 func (g *apiGen) window(c *apiCall) {
 	r := g.r
 	if r.P(50) {
@@ -740,12 +745,32 @@ func (g *apiGen) next0() *apiCall {
 		c.Q, c.Repl, c.Upsert, c.After = g.filter(db, coll), g.replacement(db, coll), r.P(35), r.P(50)
 		c.Sort, c.HasSort = g.sortSpec()
 		c.Proj, c.HasProj = g.projection(db, coll)
+		if r.P(8) {
+			// a projection that fails only on the post-image (the replacement introduces the array)
+			f := gen.Keys[r.N(len(gen.Keys))]
+			c.Repl = append(bson.D{}, c.Repl...)
+			c.Repl = append(c.Repl, bson.E{Key: f + "z", Value: bson.A{g.value()}})
+			c.Proj, c.HasProj = lateFailingProjection(f+"z"), true
+			c.After, c.Upsert = r.P(70), r.P(50)
+		}
 	case k < 770:
 		c.M = "findOneAndUpdate"
 		c.Q, c.U, c.Upsert, c.After = g.filter(db, coll), g.update(db, coll), r.P(35), r.P(50)
 		c.Sort, c.HasSort = g.sortSpec()
 		c.Proj, c.HasProj = g.projection(db, coll)
 		c.Filters, c.HasFilters = g.arrayFilters()
+		if r.P(8) {
+			// a projection that fails only on the post-image (the update creates the array)
+			f := gen.Keys[r.N(len(gen.Keys))] + "z"
+			if r.P(50) {
+				c.U = bson.D{{Key: "$push", Value: bson.D{{Key: f, Value: g.value()}}}}
+			} else {
+				c.U = bson.D{{Key: "$set", Value: bson.D{{Key: f, Value: bson.A{g.value()}}}}}
+			}
+			c.Filters, c.HasFilters = nil, false
+			c.Proj, c.HasProj = lateFailingProjection(f), true
+			c.After, c.Upsert = r.P(70), r.P(50)
+		}
 	case k < 800:
 		c.M = "bulkWrite"
 		c.Ordered = r.P(50)
